@@ -112,7 +112,7 @@ Definition show (r : Z) (st : dt) : list tok :=
 Definition dt_step (st : dt) (op : Z) (args : list tok) : dt * list tok :=
   match op, args with
   | 0, [TN s] => (dt_new s, [TN 0])
-  | 1, [TN s; TB b] =>
+  | 1, [TN s; TB b] | 1, [TN s; TB b; TN _] =>      (* an optional last number: further TCP flags of the segment (FIN, PSH ...); the tracker never sees them *)
       match process_payload st s b with
       | Ok (st', r) => (st', show (b2z r) st')
       | OOB n => (st, [TN (-1); TN n])
